@@ -16,19 +16,30 @@ package main
 import (
 	"encoding/json"
 	"fmt"
+	"go/ast"
+	goparser "go/parser"
+	"go/printer"
+	"go/token"
 	"math/big"
 	"os"
 	"os/exec"
 	"path/filepath"
 	"regexp"
+	"strconv"
 	"strings"
 	"time"
 )
 
 type replayInput struct{ Name, Expr string }
 
+type yieldSpec struct {
+	File, Func string
+	N          int
+}
+
 type replayDriver struct {
-	Race     bool // run the replay under the race detector
+	Yields   []yieldSpec // schedule replays: insert zzYield("<func>#n") after the n-th Unlock() of Func in File
+	Race     bool        // run the replay under the race detector
 	Pkg      string
 	Inputs   []replayInput
 	Template string
@@ -54,6 +65,12 @@ func loadDriver(verifDir, fn string) *replayDriver {
 		switch {
 		case strings.HasPrefix(line, "//replay:pkg "):
 			d.Pkg = strings.TrimSpace(strings.TrimPrefix(line, "//replay:pkg "))
+		case strings.HasPrefix(line, "//replay:yield "):
+			f := strings.Fields(strings.TrimPrefix(line, "//replay:yield "))
+			if len(f) == 3 {
+				n, _ := strconv.Atoi(f[2])
+				d.Yields = append(d.Yields, yieldSpec{f[0], f[1], n})
+			}
 		case strings.HasPrefix(line, "//replay:race"):
 			d.Race = true
 		case strings.HasPrefix(line, "//replay:kinds "):
@@ -192,7 +209,68 @@ func goLiteral(v string) string {
 	return v
 }
 
-func runReplayTest(repo, pkg, src string, timeoutS int, race bool) (string, error) {
+// instrumentYield re-parses a source file of /repo and inserts
+// zzYield("<func>#<n>") after the n-th Unlock() statement of the function.
+// The copy is only used through go test -overlay.
+func instrumentYield(repo string, ys []yieldSpec, file string) (string, error) {
+	fset := token.NewFileSet()
+	f, err := goparser.ParseFile(fset, filepath.Join(repo, file), nil, goparser.ParseComments)
+	if err != nil {
+		return "", err
+	}
+	for _, y := range ys {
+		if y.File != file {
+			continue
+		}
+		for _, d := range f.Decls {
+			fd, ok := d.(*ast.FuncDecl)
+			if !ok || fd.Name.Name != y.Func || fd.Body == nil {
+				continue
+			}
+			count := 0
+			var visit func(list []ast.Stmt) []ast.Stmt
+			visit = func(list []ast.Stmt) []ast.Stmt {
+				var out []ast.Stmt
+				for _, st := range list {
+					switch x := st.(type) {
+					case *ast.BlockStmt:
+						x.List = visit(x.List)
+					case *ast.IfStmt:
+						x.Body.List = visit(x.Body.List)
+						if eb, ok := x.Else.(*ast.BlockStmt); ok {
+							eb.List = visit(eb.List)
+						}
+					case *ast.ForStmt:
+						x.Body.List = visit(x.Body.List)
+					case *ast.RangeStmt:
+						x.Body.List = visit(x.Body.List)
+					}
+					out = append(out, st)
+					if es, ok := st.(*ast.ExprStmt); ok {
+						if call, ok := es.X.(*ast.CallExpr); ok {
+							if sel, ok := call.Fun.(*ast.SelectorExpr); ok && sel.Sel.Name == "Unlock" {
+								count++
+								if count == y.N {
+									out = append(out, &ast.ExprStmt{X: &ast.CallExpr{Fun: ast.NewIdent("zzYield"),
+										Args: []ast.Expr{&ast.BasicLit{Kind: token.STRING, Value: fmt.Sprintf("%q", fmt.Sprintf("%s#%d", y.Func, y.N))}}}})
+								}
+							}
+						}
+					}
+				}
+				return out
+			}
+			fd.Body.List = visit(fd.Body.List)
+		}
+	}
+	var b strings.Builder
+	if err := printer.Fprint(&b, fset, f); err != nil {
+		return "", err
+	}
+	return b.String(), nil
+}
+
+func runReplayTest(repo, pkg, src string, timeoutS int, race bool, yields ...yieldSpec) (string, error) {
 	dir, err := os.MkdirTemp("", "govc-replay")
 	if err != nil {
 		return "", err
@@ -201,6 +279,19 @@ func runReplayTest(repo, pkg, src string, timeoutS int, race bool) (string, erro
 	testFile := filepath.Join(dir, "zz_replay_test.go")
 	os.WriteFile(testFile, []byte(src), 0644)
 	ov := map[string]map[string]string{"Replace": {filepath.Join(repo, pkg, "zz_replay_test.go"): testFile}}
+	files := map[string]bool{}
+	for _, y := range yields {
+		files[y.File] = true
+	}
+	for file := range files {
+		inst, err := instrumentYield(repo, yields, file)
+		if err != nil {
+			return "instrumentation failed: " + err.Error(), err
+		}
+		cp := filepath.Join(dir, "inst_"+filepath.Base(file))
+		os.WriteFile(cp, []byte(inst), 0644)
+		ov["Replace"][filepath.Join(repo, file)] = cp
+	}
 	js, _ := json.Marshal(ov)
 	ovFile := filepath.Join(dir, "ov.json")
 	os.WriteFile(ovFile, js, 0644)
@@ -258,7 +349,7 @@ func tryReplay(cr *checkRun, o *Obl) (string, bool) {
 		}
 		src = strings.ReplaceAll(src, "{{"+in.Name+"}}", goLiteral(v))
 	}
-	out, _ := runReplayTest(cr.repo, d.Pkg, src, 120, d.Race)
+	out, _ := runReplayTest(cr.repo, d.Pkg, src, 120, d.Race, d.Yields...)
 	confirmed := strings.Contains(out, "REPLAY-CONFIRMED") || (d.Race && strings.Contains(out, "WARNING: DATA RACE"))
 	var b strings.Builder
 	fmt.Fprintf(&b, "model: %v\n--- generated test ---\n%s\n--- go test output ---\n%s", vals, src, out)
